@@ -1,14 +1,17 @@
 (* C01 — Stored content reads back byte-identical at the address returned on insertion.
-   Final statements; proofs in Content/Cluster.v, Content/Pack.v, Base/Parser.v.
-   PARTIAL at file level: the statements below cover (a) the creator's cluster/address bookkeeping for
-   every insertion sequence, (b) every byte-level codec on the path from an address to its bytes
-   (content info, cluster pointer, cluster tail at every offset width, blob offsets, CRC'd blocks
-   read back where they were placed).  Their composition into one statement about the whole file
-   (placing the blocks of a pack in one byte string, for every cluster placement) is NOT proved here;
-   it is covered by the correspondence: the extracted reader [cp_read] decodes every pack the real
-   creator writes and must find each content at the cluster/blob the proved state machine plans. *)
+   Final statements; proofs in Content/Cluster.v, Content/Pack.v, Content/FilePack.v, Base/Parser.v.
+   (a) the creator's cluster/address bookkeeping for every insertion sequence; (b) every byte-level
+   codec on the path from an address to its bytes; (c) their composition at file level: for EVERY file
+   in which the structures the creator built are placed — header blocks, the two tables, each
+   cluster's tail block and data wherever its pointer says, in any order — the reader returns for a
+   content stored uncompressed exactly its bytes, and for a content in a compressed cluster the
+   position and length of its blob in the decompressed data.  Outside the model: the compression
+   libraries (decompress (compress x) = x is not proved; compressed contents are compared through the
+   real reader), and that the real creator lays the file out as [content_pack_at] says — which is what
+   the correspondence check establishes on every pack it writes (the extracted reader must find every
+   content at the cluster/blob the proved state machine plans, and the canonical-form check of C14). *)
 From Coq Require Import List Arith NArith.
-From Jbk Require Import Base.ListExtra Base.Bytes Base.Crc Base.Parser Base.Prog Content.Cluster Content.Pack.
+From Jbk Require Import Base.ListExtra Base.Bytes Base.Crc Base.Parser Base.Prog Format.Structs Content.Cluster Content.Pack Content.FilePack.
 Import ListNotations.
 
 (* (a) For every insertion sequence (any sizes, any storage decisions): insertion i gets an address
@@ -71,6 +74,51 @@ Theorem C01_pinned_tail_width_refuted :
     end.
 Proof. exact tail_width_pinned_refuted. Qed.
 
+(* (c) file level *)
+Theorem C01_stored_content_reads_back :
+  forall (ops : list (list N * bool)) f base h ch clusters i x,
+    let s := fold_left (add (list N) lenN) ops (init (list N)) in
+    content_pack_at f base h ch (map info_of (infos (list N) s)) clusters ->
+    Forall2 cluster_matches (cs (list N) s) clusters ->
+    (N.of_nat (length (cs (list N) s)) <= 2 ^ 20)%N ->
+    nth_error ops i = Some (x, false) ->
+    exists k j off p,
+      run f (cp_open_p base) = Ok p /\
+      run f (cp_read_p p (N.of_nat i)) = Ok (Some (k, j, CRaw off (lenN x), Some x)).
+Proof. exact stored_content_reads_back. Qed.
+
+Theorem C01_raw_content_at_its_address :
+  forall f base h ch infos clusters (P : content_pack_at f base h ch infos clusters) i k j c so b,
+    nth_error infos i = Some (N.of_nat k, N.of_nat j) ->
+    nth_error clusters k = Some (c, so) -> cl_comp c = 0%N -> nth_error (cl_blobs c) j = Some b ->
+    (N.of_nat j < 2 ^ 12)%N -> (N.of_nat k < 2 ^ 20)%N ->
+    exists off p, run f (cp_open_p base) = Ok p /\
+                  run f (cp_read_p p (N.of_nat i)) = Ok (Some (N.of_nat k, N.of_nat j, CRaw off (lenN b), Some b)).
+Proof.
+  intros f base h ch infos clusters P i k j c so b H1 H2 H3 H4 H5 H6.
+  destruct (read_raw_content f base h ch infos clusters P i k j c so b H1 H2 H3 H4 H5 H6) as [off R].
+  exists off. eexists. split; [exact (open_ok f base h ch infos clusters P)|exact R].
+Qed.
+
+Theorem C01_compressed_content_located :
+  forall f base h ch infos clusters (P : content_pack_at f base h ch infos clusters) i k j c so b,
+    nth_error infos i = Some (N.of_nat k, N.of_nat j) ->
+    nth_error clusters k = Some (c, so) -> cl_comp c <> 0%N -> nth_error (cl_blobs c) j = Some b ->
+    (N.of_nat j < 2 ^ 12)%N -> (N.of_nat k < 2 ^ 20)%N ->
+    exists p, run f (cp_open_p base) = Ok p /\
+      run f (cp_locate_p p (N.of_nat i)) =
+        Ok (Some (N.of_nat k, N.of_nat j,
+                  CComp (cl_comp c) (base + so_off so - cl_stored c)%N (cl_stored c) (cl_dsize c)
+                        (lenN (concat (firstn j (cl_blobs c)))) (lenN b))).
+Proof.
+  intros f base h ch infos clusters P i k j c so b H1 H2 H3 H4 H5 H6.
+  eexists. split; [exact (open_ok f base h ch infos clusters P)|].
+  exact (locate_compressed_content f base h ch infos clusters P i k j c so b H1 H2 H3 H4 H5 H6).
+Qed.
+
+Print Assumptions C01_stored_content_reads_back.
+Print Assumptions C01_raw_content_at_its_address.
+Print Assumptions C01_compressed_content_located.
 Print Assumptions C01_address_resolves.
 Print Assumptions C01_count_is_insertions.
 Print Assumptions C01_past_the_end.
